@@ -76,8 +76,10 @@ def ledger(ev1, ev2, mode):
     p2 = [e for e in ev2 if e["e"] in ("Release", "Select")]
     costs = []
     for a, b in zip(p1, p2):
-        if a["e"] != b["e"] or (a["e"] == "Release" and np.shape(a["x"]) != np.shape(b["x"])) or (a["e"] == "Select" and len(a["p"]) != len(b["p"])):
-            # the two runs do not even perform the same primitive on same-shaped operands: perfectly distinguishable
+        if (a["e"] != b["e"] or (a["e"] == "Release" and (np.shape(a["x"]) != np.shape(b["x"]) or a["scale"] != b["scale"] or a["kind"] != b["kind"]))
+                or (a["e"] == "Select" and len(a["p"]) != len(b["p"]))):
+            # the two runs do not even perform the same primitive on same-shaped operands with the same noise scale: the schedule
+            # itself depends on the data and nothing was charged for that
             costs.append({"e": a["e"], "kind": a.get("kind", ""), "scale": a.get("scale", 0.0), "shape_mismatch": True, "cost": math.inf})
             break
         if a["e"] == "Release":
